@@ -583,6 +583,28 @@ run_direct(IMB_MGR *mgr)
                         OK("ZUC_EEA3_N_BUFFER", IMB_ZUC_EEA3_N_BUFFER(mgr, zkeys, ivs, srcs, dsts, lens, 6));
                         OK("ZUC_EIA3_N_BUFFER", IMB_ZUC_EIA3_N_BUFFER(mgr, zkeys, ivs, srcs, lens, tags, 5));
                         OK("imb_sm4_gcm_pre", imb_sm4_gcm_pre(mgr, key, &gk));
+                        {
+                                /* QUIC helpers (take the manager); one packet and zero packets */
+                                void *qd[2] = { out, out + 64 };
+                                const void *qs[2] = { buf, buf + 64 };
+                                const void *qiv[2] = { iv, iv };
+                                const void *qaad[2] = { buf + 128, buf + 128 };
+                                void *qtag[2] = { tag, tag + 16 };
+                                uint64_t qlen[2] = { 32, 32 };
+
+                                OK("AES128_GCM_PREq", IMB_AES128_GCM_PRE(mgr, key, &gk));
+                                OK("imb_quic_aes_gcm(1)", imb_quic_aes_gcm(mgr, &gk, IMB_KEY_128_BYTES, IMB_DIR_ENCRYPT, qd, qs, qlen, qiv, qaad, 8, qtag, 16, 1));
+                                OK("imb_quic_aes_gcm(0)", imb_quic_aes_gcm(mgr, &gk, IMB_KEY_128_BYTES, IMB_DIR_ENCRYPT, qd, qs, qlen, qiv, qaad, 8, qtag, 16, 0));
+                                FAIL("imb_quic_aes_gcm(key=NULL)", IMB_ERR_NULL_EXP_KEY, imb_quic_aes_gcm(mgr, NULL, IMB_KEY_128_BYTES, IMB_DIR_ENCRYPT, qd, qs, qlen, qiv, qaad, 8, qtag, 16, 1));
+                                OK("imb_quic_hp_aes_ecb(1)", imb_quic_hp_aes_ecb(mgr, ek, qd, qs, 1, IMB_KEY_128_BYTES));
+                                OK("imb_quic_hp_aes_ecb(0)", imb_quic_hp_aes_ecb(mgr, ek, qd, qs, 0, IMB_KEY_128_BYTES));
+                                OK("imb_quic_chacha20_poly1305(1)", imb_quic_chacha20_poly1305(mgr, key, IMB_DIR_ENCRYPT, qd, qs, qlen, qiv, qaad, 8, qtag, 1));
+                                OK("imb_quic_chacha20_poly1305(0)", imb_quic_chacha20_poly1305(mgr, key, IMB_DIR_ENCRYPT, qd, qs, qlen, qiv, qaad, 8, qtag, 0));
+                                FAIL("imb_quic_chacha20_poly1305(key=NULL)", IMB_ERR_NULL_KEY, imb_quic_chacha20_poly1305(mgr, NULL, IMB_DIR_ENCRYPT, qd, qs, qlen, qiv, qaad, 8, qtag, 1));
+                                OK("imb_quic_hp_chacha20(1)", imb_quic_hp_chacha20(mgr, key, qd, qs, 1));
+                                OK("imb_quic_hp_chacha20(0)", imb_quic_hp_chacha20(mgr, key, qd, qs, 0));
+                                OK("QUEUE_SIZEq", (void) IMB_QUEUE_SIZE(mgr));
+                        }
                 }
                 OK("AES128_CFB_ONE", IMB_AES128_CFB_ONE(mgr, out, buf, iv, ek, 10));
                 OK("AES256_CFB_ONE", IMB_AES256_CFB_ONE(mgr, out, buf, iv, ek, 16));
